@@ -315,13 +315,13 @@ type BoxDecoder func(hdr BoxHeader, startPos uint64, r io.Reader) (Box, error)
 
 // DecodeBox decodes a box
 func DecodeBox(startPos uint64, r io.Reader) (Box, error) {
-	b, _, err := decodeBoxAndExtraHdr(startPos, r)
+	b, _, err := decodeBoxAndInputSize(startPos, r)
 	return b, err
 }
 
-// decodeBoxAndExtraHdr decodes a box and also returns the number of header bytes in the input that are
-// not part of Size(): 8 for a non-mdat box with a 64-bit size field (see useCompactSize), otherwise 0.
-func decodeBoxAndExtraHdr(startPos uint64, r io.Reader) (Box, uint64, error) {
+// decodeBoxAndInputSize decodes a box and also returns the number of bytes it occupies in the input. That is
+// more than Size() when the box, or a box inside it, has a 64-bit size field that is not kept (see useCompactSize).
+func decodeBoxAndInputSize(startPos uint64, r io.Reader) (Box, uint64, error) {
 	var err error
 	var b Box
 
@@ -329,9 +329,8 @@ func decodeBoxAndExtraHdr(startPos uint64, r io.Reader) (Box, uint64, error) {
 	if err != nil {
 		return nil, 0, err
 	}
-	extraHdr := uint64(h.Hdrlen)
+	inputSize := h.Size
 	h.useCompactSize()
-	extraHdr -= uint64(h.Hdrlen)
 
 	d, ok := decoders[h.Name]
 
@@ -344,17 +343,17 @@ func decodeBoxAndExtraHdr(startPos uint64, r io.Reader) (Box, uint64, error) {
 		return nil, 0, fmt.Errorf("decode %s pos %d: %w", h.Name, startPos, err)
 	}
 
-	return b, extraHdr, nil
+	return b, inputSize, nil
 }
 
 // DecodeBoxLazyMdat decodes a box but doesn't read mdat into memory
 func DecodeBoxLazyMdat(startPos uint64, r io.ReadSeeker) (Box, error) {
-	b, _, err := decodeBoxLazyMdatAndExtraHdr(startPos, r)
+	b, _, err := decodeBoxLazyMdatAndInputSize(startPos, r)
 	return b, err
 }
 
-// decodeBoxLazyMdatAndExtraHdr is DecodeBoxLazyMdat that also returns the header bytes not part of Size()
-func decodeBoxLazyMdatAndExtraHdr(startPos uint64, r io.ReadSeeker) (Box, uint64, error) {
+// decodeBoxLazyMdatAndInputSize is DecodeBoxLazyMdat that also returns the number of bytes the box occupies in the input
+func decodeBoxLazyMdatAndInputSize(startPos uint64, r io.ReadSeeker) (Box, uint64, error) {
 	var err error
 	var b Box
 
@@ -362,9 +361,8 @@ func decodeBoxLazyMdatAndExtraHdr(startPos uint64, r io.ReadSeeker) (Box, uint64
 	if err != nil {
 		return nil, 0, err
 	}
-	extraHdr := uint64(h.Hdrlen)
+	inputSize := h.Size
 	h.useCompactSize()
-	extraHdr -= uint64(h.Hdrlen)
 
 	d, ok := decoders[h.Name]
 
@@ -390,7 +388,7 @@ func decodeBoxLazyMdatAndExtraHdr(startPos uint64, r io.ReadSeeker) (Box, uint64
 		return nil, 0, fmt.Errorf("decode box %q: %w", h.Name, err)
 	}
 
-	return b, extraHdr, nil
+	return b, inputSize, nil
 }
 
 // Fixed16 - An 8.8 fixed point number
